@@ -140,6 +140,7 @@ package topics
 //@   atcall (*rnode).rinsert requires[C08:descend] callee_rn == rn.rnodes[level] && haskey(rn.rnodes, level) && sameslice(callee_topic, rem) && callee_msg == msg && len(rem) < len(topic)
 //@   ensures[inv] vdefRTrie(rn.rnodes)
 //@   ensures[C08:stored-copy] len(topic) == 0 && err == nil ==> rn.msg != nil && fresh(rn.msg) && fresh(arr(rn.buf)) && len(rn.msg.mtypeflags) == 1 && !rn.msg.dirty && message.vdefPubParsed(rn.msg)
+//@   ensures[C08:copy-in] len(topic) == 0 && err == nil ==> fresh(arr(rn.msg.payload)) && fresh(arr(rn.msg.topic)) && fresh(arr(rn.msg.mtypeflags)) && fresh(arr(rn.msg.dbuf))
 //@   ensures[lemma-varint] len(topic) == 0 && err == nil && old(msg.dirty) ==> message.vspecVarintN(rn.msg.dbuf, 1) == message.vspecVarintLen(int(msg.remlen))
 //@   ensures[lemma-varint1] len(topic) == 0 && err == nil && old(msg.dirty) && message.vspecVarintLen(int(msg.remlen)) == 1 ==> int(rn.msg.dbuf[1]) == int(msg.remlen)
 //@   ensures[lemma-varint2] len(topic) == 0 && err == nil && old(msg.dirty) && message.vspecVarintLen(int(msg.remlen)) == 2 ==> int(rn.msg.dbuf[1]) == int(msg.remlen)%128+128 && int(rn.msg.dbuf[2]) == int(msg.remlen)/128
